@@ -92,6 +92,45 @@ static void prop_cpr_drs(Tape &t, Ctx &c) {
     else { typedef amgcl::preconditioner::cpr_drs<PAmg, SIlu0> P; P::params p; p.block_size = b; p.pprecond.coarse_enough = ce; p.eps_dd = eps_dd; p.eps_ps = eps_ps; p.weights = w; compare<P>(c, oc, p, "cpr_drs<amg,ilu0>"); }
 }
 
+// partial_update(K, update_transfer_ops): the object built from the sorted matrix and updated with the sorted A' must act bitwise like the
+// object built from the shuffled matrix and updated with the shuffled A' (A' = A, or perturbed values on the same pattern).
+template <class Precond>
+static void compare_update(Ctx &c, const OrderCase &oc, const typename Precond::params &prm, const std::string &what, const Csr<double> &Ap, const Csr<double> &Aps, bool transfer) {
+    auto builder = [&](const Csr<double> &U) {
+        return [&, transfer](const Csr<double> &A) {
+            size_t n = static_cast<size_t>(A.n);
+            auto P = std::make_shared<Precond>(std::tie(n, A.ptr, A.col, A.val), prm);
+            P->partial_update(std::tie(n, U.ptr, U.col, U.val), transfer);
+            return [P](const std::vector<double> &f, std::vector<double> &x) { P->apply(f, x); };
+        };
+    };
+    Applied a = build_and_apply(oc.sorted, oc.probes, builder(Ap));
+    Applied b = build_and_apply(oc.shuffled, oc.probes, builder(Aps));
+    require_bitwise_equal(c, a, b, what);
+}
+
+static void prop_cpr_update(Tape &t, Ctx &c) {
+    int b; OrderCase oc = gen_cell_case(t, b, t.chance(1, 4) ? 5 : 40);
+    int sk = static_cast<int>(t.u(0, 2));
+    unsigned ce = t.b() ? 6 : 3000;
+    bool transfer = !t.b(), same = t.b();
+    bool drs = t.b();
+    Csr<double> Ap, Aps; perturbed_pair(t, oc, same, Ap, Aps);
+    c.desc << (drs ? "cpr_drs" : "cpr") << " partial_update row order b=" << b << " " << oc.family << " " << describe(oc.sorted) << " sprecond=" << (sk == 0 ? "spai0" : sk == 1 ? "ilu0" : "damped_jacobi")
+           << " coarse_enough=" << ce << " update_transfer_ops=" << transfer << " same_values=" << same << " changed=" << oc.changed << " A'(shuffled)=" << dump_small(Aps, 8);
+    labels(c, oc, b);
+    c.label(drs ? "update:cpr_drs" : "update:cpr"); c.label(transfer ? "update:transfer-ops" : "update:sprecond-only"); c.label(same ? "update:same-matrix" : "update:new-values");
+    std::string tag = std::string(drs ? "cpr_drs" : "cpr") + "::partial_update<" + (sk == 0 ? "spai0" : sk == 1 ? "ilu0" : "damped_jacobi") + ">";
+    if (!drs) {
+        if (sk == 0) { typedef amgcl::preconditioner::cpr<PAmg, SSpai0> P; P::params p; p.block_size = b; p.pprecond.coarse_enough = ce; compare_update<P>(c, oc, p, tag, Ap, Aps, transfer); }
+        else if (sk == 1) { typedef amgcl::preconditioner::cpr<PAmg, SIlu0> P; P::params p; p.block_size = b; p.pprecond.coarse_enough = ce; compare_update<P>(c, oc, p, tag, Ap, Aps, transfer); }
+        else { typedef amgcl::preconditioner::cpr<PAmg, SJacobi> P; P::params p; p.block_size = b; p.pprecond.coarse_enough = ce; compare_update<P>(c, oc, p, tag, Ap, Aps, transfer); }
+    } else {
+        if (sk == 1) { typedef amgcl::preconditioner::cpr_drs<PAmg, SIlu0> P; P::params p; p.block_size = b; p.pprecond.coarse_enough = ce; compare_update<P>(c, oc, p, tag, Ap, Aps, transfer); }
+        else { typedef amgcl::preconditioner::cpr_drs<PAmg, SSpai0> P; P::params p; p.block_size = b; p.pprecond.coarse_enough = ce; compare_update<P>(c, oc, p, tag, Ap, Aps, transfer); }
+    }
+}
+
 static void prop_schur(Tape &t, Ctx &c) {
     int b; OrderCase oc = gen_cell_case(t, b, t.chance(1, 4) ? 5 : 40);
     const ptrdiff_t n = oc.sorted.n;
@@ -126,6 +165,7 @@ static std::vector<Prop> props() {
     return {
         Prop("cpr", prop_cpr, 400, 5000, 100, 80, {1}, 2, 8),
         Prop("cpr_drs", prop_cpr_drs, 400, 5000, 100, 80, {1}, 2, 8),
+        Prop("cpr_update", prop_cpr_update, 400, 5000, 100, 80, {1}, 2, 8),
         Prop("schur", prop_schur, 400, 5000, 100, 80, {1}, 2, 8),
     };
 }
